@@ -156,18 +156,34 @@ class Lattice:
         pick = lambda xs: xs[int(rng.integers(0, len(xs)))]
         rows, im, imsq = self.rows, self.im, self.imsq
         short = modname.split(".")[1]
+        def sticky(fresh):
+            """sessions repeat the previous call with one aspect changed (what exposes a cache keyed or reset on too little)"""
+            last = getattr(self, "last_" + short, None)
+            if last is not None and rng.random() < 0.6:
+                prm = dict(last)
+                k = pick(list(fresh) + [None])
+                if k is not None:
+                    prm[k] = fresh[k]
+            else:
+                prm = fresh
+            setattr(self, "last_" + short, prm)
+            return prm
         if short == "dasch":
-            m, n = pick(["two_point", "three_point", "onion_peeling"]), pick([9, 17, 25])
-            return f"{m}/{n}", lambda A, d: getattr(A.dasch, m + "_transform")(rows[:, :n], basis_dir=d, dr=0.5)
+            prm = sticky(dict(m=pick(["two_point", "three_point", "onion_peeling"]), n=pick([9, 17, 25]), dr=pick([0.5, 1.0, 2.0])))
+            m, n, dr = prm["m"], prm["n"], prm["dr"]
+            return f"{m}/{n}/{dr}", lambda A, d: getattr(A.dasch, m + "_transform")(rows[:, :n], basis_dir=d, dr=dr)
         if short == "daun":
-            n, deg, direction = pick([9, 17, 25]), pick([0, 1, 2, 3]), pick(["inverse", "inverse", "forward"])
-            reg = pick([None, ("diff", 2.0), ("L2", 1.0), ("L2c", 0.5), ("L2", 0), 3.0] + (["nonneg"] if n == 9 and direction == "inverse" else []))
-            return (f"daun/{n}/{deg}/{reg}/{direction}",
-                    lambda A, d: A.daun.daun_transform(rows[:, :n], degree=deg, reg=reg, direction=direction, basis_dir=d, verbose=False, dr=2.0))
+            prm = sticky(dict(n=pick([9, 17, 25]), deg=pick([0, 1, 2, 3]), direction=pick(["inverse", "inverse", "forward"]),
+                              reg=pick([None, ("diff", 2.0), ("L2", 1.0), ("L2c", 0.5), ("L2", 0), 3.0, "nonneg"]), dr=pick([2.0, 1.0, 0.5])))
+            n, deg, direction, reg, dr = prm["n"], prm["deg"], prm["direction"], prm["reg"], prm["dr"]
+            if reg == "nonneg" and (n != 9 or direction != "inverse"):
+                reg = None
+            return (f"daun/{n}/{deg}/{reg}/{direction}/{dr}",
+                    lambda A, d: A.daun.daun_transform(rows[:, :n], degree=deg, reg=reg, direction=direction, basis_dir=d, verbose=False, dr=dr))
         if short == "basex":
-            n, sigma = pick([9, 17, 25]), pick([0.7, 1.0, 1.5])
-            reg, corr, direction, dr = pick([(0.0, False, "inverse", 1.0), (5.0, True, "inverse", 0.5), (0.0, True, "forward", 1.0),
-                                             (5.0, False, "forward", 2.0), (1.0, True, "inverse", 1.0), (1.0, False, "forward", 1.0)])
+            prm = sticky(dict(n=pick([9, 17, 25]), sigma=pick([0.7, 1.0, 1.5, 2.0]), reg=pick([0.0, 1.0, 5.0]), corr=pick([True, False]),
+                              direction=pick(["inverse", "forward"]), dr=pick([1.0, 0.5, 2.0])))
+            n, sigma, reg, corr, direction, dr = prm["n"], prm["sigma"], prm["reg"], prm["corr"], prm["direction"], prm["dr"]
             if sigma < 1 and reg == 0:
                 reg = 2.0         # more basis functions than pixels and no regularisation: singular normal matrix, the
                                   # operator is rounding noise (changes with memory layout alone) — not a cache question
@@ -175,11 +191,13 @@ class Lattice:
                     lambda A, d: A.basex.basex_transform(rows[:, :n], sigma=sigma, reg=reg, correction=corr, direction=direction, dr=dr,
                                                          basis_dir=d, verbose=False))
         if short == "linbasex":
-            orders, angles, step, clip = pick([([0, 2], [0, np.pi / 2], 1, 0), ([0, 2, 4], [0, 0.6, 1.2, np.pi / 2], 1, 0),
-                                               ([0, 24], [0, 0.3, 0.9, np.pi / 2], 1, 0), ([0, 2], [0, 0.01, np.pi / 2], 1, 0),
-                                               ([0, 2], [0, 0.02, np.pi / 2], 1, 0), ([0, 2], [0, np.pi / 2], 2, 0),
-                                               ([0, 2], [0, np.pi / 2], 1, 1), ([0, 1, 2], [0, 0.7, np.pi / 2], 1, 0),
-                                               ([0, 2], [0, 0.5, np.pi / 2], 1, 0), ([0, 2], [0, 0.51, np.pi / 2], 1, 0)])
+            prm = sticky(dict(orders=pick([[0, 2], [0, 2, 4], [0, 24], [0, 1, 2]]),
+                              angles=pick([[0, np.pi / 2], [0, 0.6, 1.2, np.pi / 2], [0, 0.3, 0.9, np.pi / 2], [0, 0.01, np.pi / 2], [0, 0.02, np.pi / 2],
+                                           [0, 0.7, np.pi / 2], [0, 0.5, np.pi / 2], [0, 0.51, np.pi / 2], [0, np.pi / 4]]),
+                              step=pick([1, 1, 2]), clip=pick([0, 0, 1])))
+            orders, angles, step, clip = prm["orders"], prm["angles"], prm["step"], prm["clip"]
+            if len(angles) < len(orders):
+                angles = [0, 0.6, 1.2, np.pi / 2]       # fewer projections than orders is an underdetermined request
             return (f"linbasex/{orders}/{[round(a, 3) for a in angles]}/{step}/{clip}",
                     lambda A, d: A.linbasex.linbasex_transform_full(imsq, basis_dir=d, legendre_orders=orders, proj_angles=angles,
                                                                     radial_step=step, clip=clip)[0])
@@ -270,7 +288,7 @@ def oracle_transform(ck, tier, deep, faults=False, suite="S.transform-histories"
                 files = sorted(glob.glob(os.path.join(d1, "*.npy")) + glob.glob(os.path.join(d2, "*.npy")))
                 if files:
                     f = files[int(rng.integers(0, len(files)))]
-                    kind = ["truncate", "garbage", "empty", "remove", "zero-tail"][int(rng.integers(0, 5))]
+                    kind = ["truncate", "garbage", "empty", "remove", "zero-tail", "garbage-in-place"][int(rng.integers(0, 6))]
                     size = os.path.getsize(f)
                     if kind == "truncate":
                         cut = int(rng.integers(0, max(1, size)))
@@ -283,6 +301,15 @@ def oracle_transform(ck, tier, deep, faults=False, suite="S.transform-histories"
                         open(f, "wb").close()
                     elif kind == "remove":
                         os.remove(f)
+                    elif kind == "garbage-in-place":     # overwritten without truncation, same length (what a process holding the
+                        with open(f, "r+b") as fh:       # file open or mapped would see change under it)
+                            fh.write(bytes(rng.integers(0, 256, size=size, dtype=np.uint8)))
+                    elif kind == "short-payload":        # a well-formed .npy whose array is smaller than the name promises
+                        try:
+                            arr = np.load(f, allow_pickle=True)
+                            np.save(f, arr[..., :max(1, arr.shape[-1] // 2)])
+                        except Exception:
+                            continue
                     else:      # same length, payload tail overwritten with zeros is a *valid* file of wrong numbers:
                         continue   # not a crash/garbage/concurrent-writer state of a single np.save; out of the property's scope
                     hist.append(f"{kind} {os.path.basename(f)} in {names[os.path.dirname(f)]}")
@@ -437,6 +464,81 @@ def _reference(modname, f):
     return val
 
 
+def oracle_sequences(ck, tier):
+    """short curated sessions in which two aspects change between neighbouring calls (direction and σ; output geometry and its
+    origin row; method and pixel size …) — the three-step patterns single-parameter pairs cannot reach; every call is compared
+    with the same call in a pristine process"""
+    import abel
+    rng = np.random.default_rng(seed() + 717)
+    rows = rng.normal(size=(3, 40))
+    sq = rng.random((21, 21))
+    im = rng.random((31, 41))
+    B = lambda **k: (lambda A, d: A.basex.basex_transform(rows[:, :k.get("n", 17)], sigma=k.get("sigma", 1.0), reg=k.get("reg", 1.0),
+                                                           correction=k.get("corr", True), direction=k.get("direction", "inverse"),
+                                                           dr=k.get("dr", 1.0), basis_dir=d, verbose=False))
+    D = lambda **k: (lambda A, d: A.daun.daun_transform(rows[:, :k.get("n", 17)], degree=k.get("degree", 1), reg=k.get("reg", None),
+                                                         direction=k.get("direction", "inverse"), dr=k.get("dr", 1.0), basis_dir=d, verbose=False))
+    S = lambda m, **k: (lambda A, d: getattr(A.dasch, m + "_transform")(rows[:, :k.get("n", 17)] if not k.get("one") else rows[0, :k.get("n", 17)],
+                                                                          basis_dir=d, dr=k.get("dr", 1.0)))
+    L = lambda **k: (lambda A, d: A.linbasex.linbasex_transform_full(sq, basis_dir=d, legendre_orders=k.get("orders", [0, 2]),
+                                                                      proj_angles=k.get("angles", [0, np.pi / 2]), radial_step=k.get("step", 1), clip=k.get("clip", 0))[0])
+
+    def R(**k):
+        def f(A, d):
+            r = A.rbasex.rbasex_transform(k.get("im", sq), origin=k.get("origin", "center"), rmax=k.get("rmax", "MIN"), order=k.get("order", 2),
+                                          odd=k.get("odd", False), direction=k.get("direction", "inverse"), reg=k.get("reg", None),
+                                          out=k.get("out", "same"), basis_dir=d)
+            return r[0], r[1].cos()
+        return f
+    sessions = {
+        "abel.basex": [[B(sigma=2.0), B(sigma=1.0, direction="forward"), B(sigma=1.0)],
+                       [B(direction="forward", dr=0.5), B(dr=0.5), B(direction="forward", dr=0.5), B(dr=0.5)],
+                       [B(n=25), B(n=9, direction="forward"), B(n=9), B(n=25, direction="forward")],
+                       [B(reg=0.0, corr=False), B(reg=5.0, corr=False, direction="forward"), B(reg=5.0, corr=False)]],
+        "abel.daun": [[D(degree=0), D(degree=1, direction="forward"), D(degree=1)],
+                      [D(degree=2, n=25), D(degree=3, n=25, direction="forward"), D(degree=3, n=9), D(degree=2, n=9)],
+                      [D(reg=("L2", 1.0)), D(reg=("diff", 1.0), degree=2), D(reg=("L2", 1.0), degree=2)],
+                      [D(dr=0.5), D(dr=0.5, direction="forward"), D(dr=2.0), D(dr=2.0, direction="forward")]],
+        "abel.dasch": [[S("two_point", dr=0.5), S("two_point", dr=0.5), S("three_point", dr=0.5), S("two_point", n=9, dr=2.0)],
+                       [S("onion_peeling", n=25), S("two_point", n=9), S("onion_peeling", n=9, one=True, dr=0.5), S("onion_peeling", n=9, dr=0.5)]],
+        "abel.linbasex": [[L(angles=[0, np.pi / 4]), L(), L(angles=[0, np.pi / 4]), L()],
+                          [L(orders=[0, 2, 4], angles=[0, 0.6, 1.2, np.pi / 2]), L(step=2), L(orders=[0, 2, 4], angles=[0, 0.6, 1.2, np.pi / 2], step=2)]],
+        "abel.rbasex": [[R(origin=(7, 10), rmax=10, order=1, odd=True, out="same"), R(origin=(7, 10), rmax=10, order=1, odd=True, out="full"),
+                         R(origin=(7, 10), rmax=10, order=1, odd=True, out="same")],
+                        [R(order=2, direction="forward"), R(order=4, direction="forward"), R(order=2, direction="forward", out="full"), R(order=6, direction="forward", out="full")],
+                        [R(im=im, origin=(12, 20), out="full"), R(im=im, origin=(15, 18), out="full"), R(im=im, origin=(15, 18), rmax=12, out="same")],
+                        [R(reg=("L2", 3.0)), R(reg=("diff", 1.0)), R(reg=None), R(reg=("L2", 3.0), order=4)]],
+    }
+    scratch = os.environ.get("VERIF_SCRATCH")
+    refs = {}
+    for modname, sess in sessions.items():
+        mod = importlib.import_module(modname)
+        short = modname.split(".")[1]
+        for si, seq in enumerate(sess):
+            for use_dir in (False, True, "twice"):
+                d = tempfile.mkdtemp(prefix="seq_", dir=scratch) if use_dir else None
+                mod.cache_cleanup()
+                for rep_ in range(2 if use_dir == "twice" else 1):
+                    if rep_:
+                        mod.cache_cleanup()                     # second pass: everything is on disk now
+                    for ci, f in enumerate(seq):
+                        ck.count(("S.sequences", short, si, ci, str(use_dir)), suite="S.sequences")
+                        try:
+                            got = quiet(f, abel, d)
+                            if (short, si, ci) not in refs:
+                                refs[(short, si, ci)] = _reference(modname, f)
+                            want = refs[(short, si, ci)]
+                        except Exception as e:
+                            ck.notes.append(f"sequence {short}/{si}/{ci}: {type(e).__name__}: {e}")
+                            continue
+                        if not same_result(got, want, 1e-9):
+                            ck.violation(dict(site=short, clause="history-dependent-result"),
+                                         dict(module=short, session=si, call=ci, basis_dir=str(use_dir), pass_=rep_),
+                                         f"{short}: call {ci} of curated session {si} (basis_dir={use_dir}) differs from the pristine-state result")
+                            break
+        mod.cache_cleanup()
+
+
 def oracle_cleanup_exact(ck):
     """basis_dir_cleanup(method) removes exactly that method's basis files"""
     import abel
@@ -514,6 +616,7 @@ def run(tier):
     else:
         ck.broken.append(dict(kind="proof", module="pyabel_drv", why="driver build failed", log=log[-1500:]))
     oracle_param_pairs(ck, tier, deep or bool(ck.broken))
+    oracle_sequences(ck, tier)
     oracle_transform(ck, tier, deep or bool(ck.broken))
     oracle_cleanup_exact(ck)
     return ck.finish()
